@@ -618,12 +618,15 @@ type modSet struct {
 	nonIdx  map[types.Object]bool // written through by append/copy (not only by index)
 	foreign map[types.Object]bool // slice variables assigned from something other than themselves
 	paths   []string // selector paths assigned in the loop (or listed under on-call modifies)
+	ghostsAll bool
+	objsUnknown bool // an object is written through something other than a plain field path
+	ghosts  map[string]bool // ghost variables assigned by on-call effects / nested iter resets inside the nodes
 	node    ast.Node
 }
 
 func (fc *FnCtx) modified(nodes ...ast.Node) *modSet {
 	ms := &modSet{vars: map[types.Object]bool{}, wslices: map[types.Object]bool{}, nonIdx: map[types.Object]bool{}, foreign: map[types.Object]bool{}}
-	if fc.contract != nil && len(fc.contract.Stable) > 0 {
+	if fc.contract != nil {
 		ms.paths = fc.assignedPaths(nodes...)
 		for _, n := range nodes {
 			if n != nil {
@@ -672,9 +675,13 @@ func (fc *FnCtx) modified(nodes ...ast.Node) *modSet {
 				if ix, ok := root.(*ast.IndexExpr); ok {
 					root = ix.X
 					ms.heap = true
+					ms.objsUnknown = true
 					continue
 				}
 				break
+			}
+			if _, ok := root.(*ast.Ident); !ok {
+				ms.objsUnknown = true // written through something that is not a plain field path
 			}
 			if id, ok := root.(*ast.Ident); ok {
 				if o := fc.pkg.TypesInfo.ObjectOf(id); o != nil {
@@ -697,6 +704,7 @@ func (fc *FnCtx) modified(nodes ...ast.Node) *modSet {
 			}
 		case *ast.StarExpr:
 			ms.objs = true
+			ms.objsUnknown = true
 			// *p = v writes byte cells only when p points at a byte; a slice header or a struct lives in an object
 			if pt, ok := fc.typeOf(x.X).Underlying().(*types.Pointer); !ok || isByteElem(pt.Elem()) {
 				ms.heap = true
@@ -745,7 +753,10 @@ func (fc *FnCtx) modified(nodes ...ast.Node) *modSet {
 				}
 			case *ast.IncDecStmt:
 				markLhs(x.X)
+			case *ast.ForStmt:
+				fc.noteNestedIter(ms, x)
 			case *ast.RangeStmt:
+				fc.noteNestedIter(ms, x)
 				if x.Key != nil {
 					markLhs(x.Key)
 				}
@@ -792,7 +803,7 @@ func (fc *FnCtx) modified(nodes ...ast.Node) *modSet {
 				if tv, ok := fc.pkg.TypesInfo.Types[x.Fun]; ok && tv.IsType() {
 					return true // conversion
 				}
-				ms.calls = true
+				fc.noteGhostEffects(ms, x)
 				eff := fc.eng.callEffects(fc, x)
 				if eff.heap {
 					ms.heap = true
@@ -801,6 +812,9 @@ func (fc *FnCtx) modified(nodes ...ast.Node) *modSet {
 				if eff.objs {
 					ms.objs = true
 				}
+				if eff.heap || eff.objs {
+					ms.calls = true // a call without effects (pure contract) changes nothing
+				}
 			case *ast.FuncLit:
 				// assignments inside closures count too (they may run during the loop)
 			}
@@ -808,6 +822,52 @@ func (fc *FnCtx) modified(nodes ...ast.Node) *modSet {
 		})
 	}
 	return ms
+}
+
+// noteNestedIter: iter resets of a nested loop assign their ghosts.
+func (fc *FnCtx) noteNestedIter(ms *modSet, n ast.Node) {
+	if fc.contract == nil {
+		return
+	}
+	if ls := fc.contract.Loops[fc.loopOrd[n]]; ls != nil {
+		for _, ef := range ls.Iter {
+			ms.noteGhost(ef.Target)
+		}
+	}
+}
+
+func (ms *modSet) noteGhost(name string) {
+	if ms.ghosts == nil {
+		ms.ghosts = map[string]bool{}
+	}
+	ms.ghosts[name] = true
+}
+
+// noteGhostEffects records the ghost variables the on-call contract of call x assigns.
+func (fc *FnCtx) noteGhostEffects(ms *modSet, x *ast.CallExpr) {
+	if fc.contract == nil {
+		return
+	}
+	defer func() {
+		if r := recover(); r != nil {
+			ms.ghostsAll = true
+		}
+	}()
+	fc.staticRecvName = ""
+	name, pkgPath, _, _, kind := fc.calleeInfo(x)
+	var oc *OnCall
+	if fc.staticRecvName != "" {
+		oc = fc.findOnCall(fc.staticRecvName, pkgPath, kind, false, x)
+	}
+	if oc == nil {
+		oc = fc.findOnCall(name, pkgPath, kind, false, x)
+	}
+	if oc == nil {
+		return // effects fire only at call sites inside this body; a callee cannot reach them
+	}
+	for _, ef := range oc.Effects {
+		ms.noteGhost(ef.Target)
+	}
 }
 
 // havocForLoop replaces everything the loop may modify by fresh unknowns.
@@ -823,13 +883,31 @@ func (fc *FnCtx) havocForLoop(st *State, ms *modSet, entry *State) {
 			st.objs[fc.objIndex(b)] = fc.freshVal(v.Type(), v.Name())
 		}
 	}
-	if ms.objs || ms.calls {
+	// a path whose root variable is itself assigned in the loop may denote another object by the time it is written
+	rootAssigned := false
+	for _, p := range ms.paths {
+		root := p
+		if k := strings.IndexByte(p, '.'); k >= 0 {
+			root = p[:k]
+		}
+		for o := range ms.vars {
+			if o.Name() == root {
+				rootAssigned = true
+			}
+		}
+	}
+	if ms.calls || ms.objsUnknown || rootAssigned || (ms.objs && !fc.lenient) {
 		fc.havocObjects(st, ms.calls)
 		// stable fields survive calls, but not assignments made by the loop itself
 		for _, p := range ms.paths {
 			if fc.isStable(p) {
 				fc.havocPath(st, p, ms.node)
 			}
+		}
+	} else if ms.objs {
+		// only plain field paths are assigned and no call can touch an object: forget exactly those fields
+		for _, p := range ms.paths {
+			fc.havocPath(st, p, ms.node)
 		}
 	}
 	if ms.heap {
@@ -893,7 +971,7 @@ func (fc *FnCtx) havocForLoop(st *State, ms *modSet, entry *State) {
 	// ghost variables may be changed by effects in the loop: havoc those assigned by on-call effects
 	if fc.contract != nil && (ms.calls) {
 		for _, g := range fc.contract.Ghosts {
-			if fc.ghostMayChange(g.Name) {
+			if fc.ghostMayChange(g.Name) && (ms.ghostsAll || ms.ghosts[g.Name]) {
 				st.ghost[g.Name] = fc.freshGhost(g)
 			}
 		}
@@ -1146,6 +1224,11 @@ func (fc *FnCtx) loopCore(st *State, node ast.Node, label string, cond ast.Expr,
 					ms.vars[o] = true
 				}
 			}
+		}
+	}
+	if li.spec != nil {
+		for _, ef := range li.spec.Iter {
+			ms.noteGhost(ef.Target)
 		}
 	}
 	entry := st.clone()
